@@ -25,7 +25,12 @@ func (m *Manager) AggregationLoop(ctx context.Context, errCh chan<- error) {
 
 	if delay > 0 {
 		m.logger.Info("waiting to produce block", "delay", delay)
-		time.Sleep(delay)
+		// the start-up delay can be long (genesis time in the future): it must not outlive a stop request
+		select {
+		case <-ctx.Done():
+			return
+		case <-time.After(delay):
+		}
 	}
 
 	// blockTimer is used to signal when to build a block based on the
